@@ -166,6 +166,16 @@ theorem mul_scalar_scalar (a b : Fld K) (hab : (a.size1 && b.size1) = true) :
       rw [Bool.eq_false_iff]; intro hh; simp only [Bool.and_eq_true, decide_eq_true_eq] at hh; exact h hh
     simp [this, h]
 
+/-- non-vacuity of `mul_sem` (one one-element operand, far away: it still acts as a constant) and of
+`mul_scalar_scalar` (two one-element operands at equal / different offsets) -/
+example : ((⟨⟨1, 1, fun _ _ => (3 : Int)⟩, 7, -7⟩ : Fld Int).size1 && Ex.B.size1) = false ∧
+    ((⟨⟨1, 1, fun _ _ => (3 : Int)⟩, 7, -7⟩ : Fld Int).mul Ex.B).map (fun p => (p.extent, p.emb 0 0)) =
+      some (Ex.B.extent, 3 * Ex.B.emb 0 0) := by decide
+example : ((⟨⟨1, 1, fun _ _ => (3 : Int)⟩, 2, 2⟩ : Fld Int).mul ⟨⟨1, 1, fun _ _ => 5⟩, 2, 2⟩).map (fun p => p.emb 2 2) = some 15 ∧
+    ((⟨⟨1, 1, fun _ _ => (3 : Int)⟩, 2, 2⟩ : Fld Int).mul ⟨⟨1, 1, fun _ _ => 5⟩, 2, 3⟩).isNone = true := by decide
+/-- array × array on a partial overlap: `A` and `B` share exactly the pixel (0, 0) -/
+example : (Ex.A.mul Ex.B).map (fun p => (p.extent, p.emb 0 0)) = some (⟨0, 0, 0, 0⟩, 4 * 10) := by decide
+
 end mul
 
 /-! ## Merging -/
@@ -275,6 +285,12 @@ theorem reduce_step_invariant (a b : Group K) (ha : a.wf) (hb : b.wf) :
     simp only [mergeGroups, List.length_append, List.length_singleton] at this
     omega
   · exact hl
+
+/-- non-vacuity of the group invariant: it holds for the groups of the example collection, whose merged group has two
+members and caches `boundary` of them -/
+example : (∀ f ∈ [Ex.A, Ex.C, Ex.B], 0 < f.arr.s0 ∧ 0 < f.arr.s1) ∧
+    (disjoint 3 ([Ex.A, Ex.C, Ex.B].map Group.single)).map (fun g => (g.fields.length, g.extent)) =
+      [(2, ⟨-1, 1, -1, 2⟩), (1, ⟨5, 5, -6, -5⟩)] := by decide
 
 end reduce
 
